@@ -1,7 +1,7 @@
 """C15 — after successful lowering no backend crashes (DESIGN §5 C15, partial)."""
 import re, collections
 from common import *
-import gate_run, tablegen, e2e, abigen
+import gate_run, tablegen, e2e, abigen, c15_fixed
 from c13 import BACKENDS, CFG
 
 PROP = "C15"
@@ -65,20 +65,41 @@ def check(ctx, replay=None):
                 big += 1
                 if e2e.classify_tool(q) == "panic":
                     site, slug = e2e.panic_site(q.stderr)
-                    if not site.startswith("core/src/ast/"):
+                    if not (site.startswith("core/src/ast/") and e2e.panic_before_lowering(b, path, os.path.join(d, "out"), config=CFG + extra)):
                         ctx.violation(f"panic:{b}:{site}:{slug}", {"backend": b, "config": extra, "what": "panic on a generated module that passed lowering",
                                                                  "stderr": q.stderr[-600:], "lib_rs": src[:3000]}, True)
+    # fixed bridges: documentation links of every kind / display / depth, special-method attributes on every kind of type
+    fixed = 0
+    for name, src in c15_fixed.bridges():
+        path = os.path.join(d, f"{name}.rs"); open(path, "w").write(src)
+        for b in BACKENDS:
+            variants = [[]] + ([["js.abi=spec"]] if b in ("js", "demo_gen") else []) + ([["kotlin.use_finalizers_not_cleaners=true"]] if b == "kotlin" else [])
+            for extra in variants:
+                for ua in (c15_fixed.URL_ARGS if name.startswith("docs") else [[]]):
+                    q = e2e.run_tool(b, path, os.path.join(d, "out"), config=CFG + extra, extra_args=ua)
+                    fixed += 1
+                    if e2e.classify_tool(q) == "panic":
+                        site, slug = e2e.panic_site(q.stderr)
+                        if site.startswith("core/src/ast/") and e2e.panic_before_lowering(b, path, os.path.join(d, "out"), config=CFG + extra, extra_args=ua):
+                            continue
+                        ctx.violation(f"panic:{b}:{site}:{slug}", {"backend": b, "config": extra, "args": ua, "bridge": name,
+                                                                 "what": f"panic on the fixed `{name}` bridge, which passed lowering", "stderr": q.stderr[-600:],
+                                                                 "lib_rs": src[:4000]}, True)
+    big += fixed
     fails = []
     return batch_evidence(
         ctx, PROP, phase, [], fails, len(res) + big, len({(c[0], json.dumps(c[1])) for c in cs}),
         "one witness bridge per (position, type) of the AST type grammar to depth 2 (see C05) for each of the 7 backends through the real CLI, plus "
-        "generated grammar-wide modules under the config variants (js.abi legacy/spec, kotlin finalizers, lib_name); observed: exit class "
+        "generated grammar-wide modules under the config variants (js.abi legacy/spec, kotlin finalizers, lib_name), plus fixed bridges with a "
+        "rust_link of each of the 22 kinds x display style x module depth (also shorter-than-needed paths) under three docs-URL settings and every "
+        "special-method attribute (constructors, accessors, stringifier, comparison, iterator/iterable, indexer, 8 arithmetic operators) on opaque, "
+        "struct, out-struct and enum types, all gated with `auto`; observed: exit class "
         "ok | lowering/back-end diagnostics | panic. Every panic after lowering is a violation keyed by (backend, panic site, shape class). "
         "evaluations = tool runs; distinct_nontrivial = distinct witnesses",
         "Modelled, not verified: the gate (Gate/Model.v) and the depth bound of what it accepts (Dispatch/Model.v), which is what makes the finite "
         "witness enumeration complete up to shape class. NOT modelled: the >60 unreachable!/panic! sites of the backends themselves and arithmetic / "
         "indexing panics inside formatting code: those are only reachable by the runs (partial)",
         [{"pos": cs[0][0], "rust": gate_run.rust_ty(cs[0][1])}, {"pos": cs[-1][0], "rust": gate_run.rust_ty(cs[-1][1])}],
-        ["sources that panic while being parsed into the AST (before lowering) are outside the property",
+        ["sources that panic while being parsed into the AST (before lowering; decided for core/src/ast sites by the backtrace containing ast::File::from) are outside the property",
          "uniformity inside a shape class (a backend treating two members of one class differently) is assumed, not proved"],
-        {"witnesses": len(cs), "tool_runs": len(res) + big, "runs_past_lowering": ok_runs, "recorded_panic_classes": len(panics)})
+        {"witnesses": len(cs), "tool_runs": len(res) + big, "fixed_bridge_runs": fixed, "runs_past_lowering": ok_runs, "recorded_panic_classes": len(panics)})
